@@ -66,7 +66,8 @@ ElemTemplate::ElemTemplate(
     m_matchPattern(0),
     m_name(&s_empty),
     m_mode(&s_empty),
-    m_priority(XPath::getMatchScoreValue(XPath::eMatchScoreNone))
+    m_priority(XPath::getMatchScoreValue(XPath::eMatchScoreNone)),
+    m_hasPriority(false)
 {
     const XalanSize_t  nAttrs = atts.getLength();
 
@@ -99,6 +100,8 @@ ElemTemplate::ElemTemplate(
             assert(atts.getValue(i) != 0);
 
             m_priority = DoubleSupport::toDouble(atts.getValue(i), constructionContext.getMemoryManager());
+
+            m_hasPriority = true;
         }
         else if (equals(aname, Constants::ATTRNAME_MODE))
         {
